@@ -1411,7 +1411,8 @@ func clientSweeps(r *h.Run) {
 
 func main() {
 	r := h.Init("C14")
-	r.Imports = []string{"GU.C14.Model"}
+	r.Imports = []string{"GU.C14.Model", "GU.C14.GenModel"}
+	r.CheckFn = "check_case_gen" // the wait cases are evaluated on the definitions regenerated from retry_policy.go
 	r.Rule("wait: policy configuration x (min,max) x attempt number x response status x Retry-After value, distinct by the full tuple, non-trivial = a response is present or attempt > 0; " +
 		"retry: outcome scripts, distinct by (api, policy, script), non-trivial = enabled, RetryMax > 1 and a script of >= 2 attempts; client: distinct by scenario, non-trivial = at least one failure and one retry allowed")
 	var sc scenario
